@@ -1123,6 +1123,14 @@ func c22KnownCrashes(repo string) []*c22Known {
 			},
 		},
 		{
+			Token:   "[C22-greedy-lookback]",
+			Witness: "language w(go);\n\n:: lexer\n\n'a': /a/\n'b': /b/\n\n:: parser\n\n%input N1;\n\nN1 : ('a'? (.greedy N1 'b'))* | ;\n",
+			What:    "compiler.Compile exits through log.Fatal(\"internal error\") in lalr buildLA (addLookback): a .greedy marker drops the completed item of a rule from the state its right-hand side leads to, and the lookback pass still expects the reduction there",
+			Match: func(res c22Res) bool {
+				return res.CrashKind == "log.Fatal" && res.Msg == "internal error"
+			},
+		},
+		{
 			Token:   "[C22-addtypes-minus-one]",
 			Witness: c22HeaderGo + "\n:: lexer\n\n'a': /a/\n'b': /b/\n\n:: parser\n\n%input N0;\n\nN0 : ('a' 'b'* { })+ ;\n",
 			What:    "compiler.Compile panics (index out of range [-1] in compiler.addTypes): a command inside a list element that also contains a nested list keeps ArgRef.Symbol = -1, because syntax.updateArgRefs only visits the rule that contains the outer list",
